@@ -293,6 +293,17 @@ fn level(l: u8) -> bgzf::io::writer::CompressionLevel {
     bgzf::io::writer::CompressionLevel::new(l).unwrap()
 }
 
+/// Same write/flush sequence on the single-threaded writer, ended by dropping it instead of finish().
+fn st_write_dropped(data: &[u8], pieces: &[usize], flush_every: usize, l: u8) -> Vec<u8> {
+    let sink = SharedSink::default();
+    {
+        let mut w = bgzf::io::writer::Builder::default().set_compression_level(level(l)).build_from_writer(sink.clone());
+        drive_writer(&mut w, data, pieces, flush_every).expect("shared Vec sink");
+    }
+    let v = sink.buf.lock().unwrap().clone();
+    v
+}
+
 fn st_write(data: &[u8], pieces: &[usize], flush_every: usize, l: u8) -> Vec<u8> {
     let mut w = bgzf::io::writer::Builder::default().set_compression_level(level(l)).build_from_writer(Vec::new());
     drive_writer(&mut w, data, pieces, flush_every).expect("Vec sink");
@@ -526,7 +537,10 @@ fn run_case_inner(ctx: &Ctx, c: &Case) -> CaseOut {
 
     match c.kind {
         "W" => {
-            let st_bytes = st_write(&data, &pieces, c.flush_every, c.level);
+            // a third of the sequences end by dropping the writer (both sides) instead of finish()
+            let drop_end = c.pseed % 3 == 0;
+            let st_bytes = if drop_end { st_write_dropped(&data, &pieces, c.flush_every, c.level) } else { st_write(&data, &pieces, c.flush_every, c.level) };
+            o.count(if drop_end { "writer_sequences_ended_by_drop" } else { "writer_sequences_ended_by_finish" }, 1);
             let walk = obgzf::walk(&st_bytes).expect("C01 territory: ST output must be walkable");
             let blocks: Vec<Vec<u8>> = walk.members.iter().filter(|m| !m.is_eof_marker).map(|m| m.data.clone()).collect();
             let delays = make_delays(c.plan, blocks.len(), pool, &mut rng);
@@ -537,7 +551,11 @@ fn run_case_inner(ctx: &Ctx, c: &Case) -> CaseOut {
                     .set_compression_level(level(c.level))
                     .build_from_writer(sink.clone());
                 drive_writer(&mut w, &data, &pieces, c.flush_every).map_err(|e| format!("write/flush returned {e} on a healthy sink"))?;
-                let _sink_back: SharedSink = w.finish().map_err(|e| format!("finish() returned {e} on a healthy sink"))?;
+                if drop_end {
+                    drop(w);
+                } else {
+                    let _sink_back: SharedSink = w.finish().map_err(|e| format!("finish() returned {e} on a healthy sink"))?;
+                }
                 Ok(())
             });
             let log = disarm();
@@ -574,8 +592,8 @@ fn run_case_inner(ctx: &Ctx, c: &Case) -> CaseOut {
                         };
                         o.violation(
                             format!("mt-writer-output-ne-st-output:{class}"),
-                            format!("multithreaded writer emitted {} bytes, single-threaded writer {} bytes for the same history ({} blocks, completion inversions observed: {})",
-                                    mt_bytes.len(), st_bytes.len(), blocks.len(), st.inversions),
+                            format!("multithreaded writer emitted {} bytes, single-threaded writer {} bytes for the same history ended by {} ({} blocks, completion inversions observed: {})",
+                                    mt_bytes.len(), st_bytes.len(), if drop_end { "dropping the writer" } else { "finish()" }, blocks.len(), st.inversions),
                         );
                     }
                     if st.tasks != blocks.len() as u64 && st.unknown_blocks == 0 {
